@@ -640,7 +640,13 @@ func innermostRepoFrame(stack string) string {
 	return "?"
 }
 
+var origStderr *os.File
+
 func fatalf(format string, a ...interface{}) {
-	fmt.Fprintf(os.Stderr, "HARNESS ERROR: "+format+"\n", a...)
+	w := os.Stderr
+	if origStderr != nil {
+		w = origStderr
+	}
+	fmt.Fprintf(w, "HARNESS ERROR: "+format+"\n", a...)
 	os.Exit(2)
 }
